@@ -43,6 +43,7 @@ def same(got, want):
 
 class C09(PropBase):
     id = "C09"
+    shown_columns = ('GSP', 'TRK', 'VRATE')
     corr_fields = ['gs', 'track', 'vrate', 'vrs', 'trs']
     lean_modules = ["SqModel.Props.C09", "SqModel.Proofs.Bridge", "SqModel.Proofs.BridgePlane"]
     extractors = ["trans"]
